@@ -251,6 +251,8 @@ def _run_check(prop, tier, seed, t0, harness, cfg, budget, level, targets, scrat
 
     # ---- 1. replay tier -------------------------------------------------------------------
     tapes = sorted(glob.glob(os.path.join(VERIF, "regress", harness, "*.tape")))
+    if os.environ.get("VERIF_NO_REPLAY"):  # sensitivity experiments only: how far does generation alone get?
+        tapes = []
     replay_excluded = 0
 
     def rp_one(p):
